@@ -24,7 +24,7 @@ Variable extras : bool.
 Variable uprop : name -> option (N -> bool).
 Variable w : list byte.
 Variable Inv : state_inv.
-Hypothesis HP : preserved G extras uprop w Inv.
+Hypothesis HP : preserved G extras uprop w (fun _ => True) Inv.
 Notation equiv := (equiv G extras uprop w Inv).
 
 Lemma rot_seq_equiv a l : forall r, equiv a (ESeq l r) (rot_seq l r).
@@ -43,7 +43,7 @@ Proof. destruct e; cbn [rotate_internal]; try apply equiv_refl; [apply rot_seq_e
 Theorem rotate_expr_equiv a e e' : rotate_expr e = Some e' -> equiv a e e'.
 Proof.
   unfold rotate_expr. intros H.
-  apply (map_top_down_equiv G extras uprop w Inv HP a (fun _ => True) (fun x => Some (rotate_internal x))) in H.
+  apply (map_top_down_equiv G extras uprop w (fun _ => True) Inv HP a (fun x => Some (rotate_internal x))) in H.
   - tauto.
   - intros x y _ [= <-]. split; [apply rotate_internal_equiv|apply Forall_True].
   - apply Forall_True.
@@ -59,6 +59,6 @@ Proof.
   assert (Law : forall Gx r r' a0, rotate_rule r = Some r' -> equiv Gx extras uprop w (fun _ _ => True) a0 (rexpr r) (rexpr r')).
   { intros Gx r r' a0 E. apply with_expr_inv in E. eapply rotate_expr_equiv; [apply preserved_True|exact E]. }
   split; intros B.
-  - eapply (pass_backward G G' extras uprop w (fun _ _ => True) rotate_rule); eauto using preserved_True.
-  - eapply (pass_forward G G' extras uprop w (fun _ _ => True) rotate_rule); eauto using preserved_True.
+  - eapply (pass_backward G G' extras uprop w (fun _ => True) (fun _ _ => True) rotate_rule); eauto using preserved_True, Forall_True', jvalid_True.
+  - eapply (pass_forward G G' extras uprop w (fun _ => True) (fun _ _ => True) rotate_rule); eauto using preserved_True, Forall_True', jvalid_True.
 Qed.
